@@ -10,7 +10,15 @@ use crate::exch::{ExchCfg, Gate, Menu};
 use crate::exch_run::{replay_exchange, run_exchanges};
 use crate::gen::*;
 
-pub const RULE: &str = "exchanges = request menu (method, version, framing none/Content-Length/default chunked/explicit chunked, Expect, Connection: close, despite-method) x server menu (optional interim 100 / silent server / refusal, final status {200,204,304,404,301,302,307,403}, version, body none/CL 0/CL n/chunked 1-2 chunks with extension and trailers/close-delimited, Connection: close, trailing bytes of a next response) x boundary stopping {off,on}; per exchange the COMPLETE graph of states (full flow fingerprint, consumed, arrived, body cursor, observations) under: head write with every buffer size 0..=|head|+1, body writes with inputs {1,2,rest} x buffers {0,1,5,6,7,8,11,12,large} and direct-write reports, 1-byte arrivals (every window the caller can ever present), try_read_100 / give-up / try_response / read with buffers {0,1,2,3,4,large} at every window, proceed whenever ready; queries and readiness-vs-proceed checked in every state; every final state must show the same observation and the reference verdict; every state must be able to reach the end. distinct = distinct (exchange, final observation) pairs";
+pub const RULE: &str = "exchanges = request menu (method, version, framing none/Content-Length/default chunked/explicit chunked, Expect, Connection: close, despite-method) x server menu (optional interim 100 / silent server / refusal, final status {200,204,304,404,301,302,307,403}, version, body none/CL 0/CL n/chunked 1-2 chunks with extension and trailers/close-delimited, Connection: close, trailing bytes of a next response; a non-3xx with Location; both framing headers; a 40-field head) x boundary stopping {off,on}, plus 25 000-byte request bodies with several chunks per write; per exchange the COMPLETE graph of states (full flow fingerprint, consumed, arrived, body cursor, observations) under: head write with every buffer size 0..=|head|+1, body writes with inputs {1,2,rest} x buffers {0,1,5,6,7,8,11,12,large} and direct-write reports, 1-byte arrivals (every window the caller can ever present), try_read_100 / give-up / try_response / read with buffers {0,1,2,3,4,large} at every window, proceed whenever ready; queries and readiness-vs-proceed checked in every state; every final state must show the same observation and the reference verdict; every state must be able to reach the end. distinct = distinct (exchange, final observation) pairs";
+
+const MANY_FIELDS: [(&str, &str); 40] = [
+    ("X-Info-0", "a"), ("X-Info-1", "b"), ("X-Info-2", "c"), ("X-Info-3", "d"), ("X-Info-4", "e"), ("X-Info-5", "f"), ("X-Info-6", "g"), ("X-Info-7", "h"),
+    ("X-Info-8", "i"), ("X-Info-9", "j"), ("X-Info-10", "k"), ("X-Info-11", "l"), ("X-Info-12", "m"), ("X-Info-13", "n"), ("X-Info-14", "o"), ("X-Info-15", "p"),
+    ("X-Info-16", "q"), ("X-Info-17", "r"), ("X-Info-18", "s"), ("X-Info-19", "t"), ("X-Info-20", "u"), ("X-Info-21", "v"), ("X-Info-22", "w"), ("X-Info-23", "x"),
+    ("X-Info-24", "y"), ("X-Info-25", "z"), ("X-Info-26", "a"), ("X-Info-27", "b"), ("X-Info-28", "c"), ("X-Info-29", "d"), ("X-Info-30", "e"), ("X-Info-31", "f"),
+    ("X-Info-32", "g"), ("X-Info-33", "h"), ("X-Info-34", "i"), ("X-Info-35", "j"), ("X-Info-36", "k"), ("X-Info-37", "l"), ("X-Info-38", "m"), ("X-Info-39", "n"),
+];
 
 fn quick_requests() -> Vec<ReqSpec> {
     vec![
@@ -95,6 +103,8 @@ fn finals(tier: Tier) -> Vec<(u16, &'static str, Vec<(&'static str, &'static str
         (201, "1.1", vec![("Location", "/created/1"), ("X-After", "1")], BodySpec::Length(b"ok".to_vec())),
         // both framing headers: chunked wins on HTTP/1.1
         (200, "1.1", vec![("Content-Length", "3")], ch1.clone()),
+        // a head with many fields (40), body after it
+        (200, "1.1", MANY_FIELDS.to_vec(), BodySpec::Length(b"xy".to_vec())),
     ];
     if tier.thorough() {
         v.extend(vec![
@@ -165,6 +175,19 @@ pub fn build(tier: Tier) -> Vec<Arc<ExchCfg>> {
             }
         }
     }
+    // large request bodies: several chunks per write, buffers around the 10 KiB chunk size
+    for fr in [ReqFraming::Default, ReqFraming::Length(25_000)] {
+        let r = req("POST", "1.1", fr, 25_000, false, false, false);
+        let fm = final_msg("POST", "1.1", 200, &[], &BodySpec::Length(b"ok".to_vec()));
+        let mut menu = Menu::default_large();
+        menu.head_bufs = vec![4096];
+        menu.body_inputs = vec![usize::MAX, 10_241, 4_000];
+        menu.body_bufs = vec![4_096, 10_253, 20_600, 65_536];
+        menu.direct_writes = vec![];
+        menu.arrive = vec![usize::MAX];
+        let c = ExchCfg::new("C01", r.cfg.clone(), r.body.clone(), server(fm, None, Gate::AfterBody), next.clone(), menu).expect("cfg");
+        out.push(Arc::new(c));
+    }
     out
 }
 
@@ -174,7 +197,6 @@ fn describe(c: &ExchCfg) -> Value {
 
 pub fn run(tier: Tier) -> Report {
     let cfgs = build(tier);
-    crate::engine::WD_LIMIT_S.store(120, std::sync::atomic::Ordering::Relaxed);
     let lim = Limits { max_states: 2_000_000, keep_final_traces: 3, keep_state_traces: 3, check_coreach: true, probe_every: 8, ..Default::default() };
     let mut rep = run_exchanges(cfgs, &lim, true, describe);
     let fs = rep.extra.get("final_states").and_then(|v| v.as_u64()).unwrap_or(0);
